@@ -74,6 +74,22 @@ func inputs(thorough bool) []input {
 		{"tokens-250", colList(125)},
 		{"tokens-1000", colList(500)},
 	}
+	// lexical layouts: the context-aware tokenizer loop is a copy of the context-free one, so every way an input can
+	// begin and end (comments, blanks, nothing at all) and every literal form goes through both
+	for i, sql := range []string{
+		"-- only a line comment", "-- line comment and newline\n", "/* only a block comment */", "/* a */ /* b */", " \t\r\n ", "",
+		"SELECT 1 -- trailing", "SELECT 1 -- trailing\n", "SELECT 1 /* trailing */", "SELECT 1 /* a */ /* b */", "SELECT 1 /* a */ -- b", "SELECT 1 -- a\n-- b\n-- c",
+		"-- leading\nSELECT 1", "/* leading */ SELECT 1", "/* a */ -- b\n/* c */ SELECT 1", "SELECT 1 ; -- after semicolon", "SELECT 1 \n\t ", "\n\nSELECT 1\r\n",
+		"SELECT 'a''b', \"q\", $$d$$, $t$e$t$, 1.5e3, 2E+4, .5, x'ff', N'n', `b`, [k], a::int, b->>'k', c #> '{a}', @v, :p, $1 -- literals",
+		"SELECT a /* in */ , /* between */ b FROM /* c */ t -- end",
+	} {
+		in = append(in, input{fmt.Sprintf("layout-%d", i), sql})
+	}
+	base := sqlgen.Sel{Items: []sqlgen.SelItem{{X: sqlgen.Col("c1")}, {X: sqlgen.Func("f1", []sqlgen.X{sqlgen.Col("c2")}, sqlgen.FuncOpts{})}}, From: []sqlgen.TableRef{{Name: "t1"}},
+		Where: &[]sqlgen.X{sqlgen.Bin("=", sqlgen.Col("c3"), sqlgen.Str("s1"))}[0], OrderBy: []sqlgen.OrderItem{{X: sqlgen.Col("c1")}}}.Build()
+	for l := 0; l <= sqlgen.NLayouts; l++ {
+		in = append(in, input{fmt.Sprintf("sqlgen-layout-%d", l), sqlgen.Render(base.Toks, l)})
+	}
 	// every clause form of the model grammar (join kinds, derived tables on either side of a join, LATERAL,
 	// grouping sets, CTE forms, window frames ...): each has its own poll sites and hand-maintained depth accounting
 	seen := map[string]bool{}
